@@ -28,7 +28,7 @@ func main() {
 		usage()
 	}
 	switch os.Args[1] {
-	case "verify", "list", "loops", "maporder":
+	case "verify", "list", "loops", "maporder", "splitindex", "divzero":
 		cmdVerify(os.Args[1], os.Args[2:])
 	case "check":
 		os.Exit(cmdCheck(os.Args[2:]))
@@ -181,6 +181,12 @@ func cmdVerify(mode string, argv []string) {
 	switch mode {
 	case "maporder":
 		cmdMapOrder(P)
+		return
+	case "splitindex":
+		cmdSplitIndex(P)
+		return
+	case "divzero":
+		cmdDivZero(P)
 		return
 	case "list":
 		for _, n := range P.HarnessNames() {
